@@ -203,18 +203,19 @@ def observe(bp, decl, seed, horizon=HORIZON, with_ic=None):
     """Build one (blueprint, order) with the real classes and project it.  -> (events, info)"""
     from harness import modelkit, modelprops as mp
     prog = program_for(bp, decl, seed, horizon, with_ic)
-    b = modelkit.execute(prog, horizon=horizon)
+    b = modelkit.execute(prog, horizon=horizon, observe_phases=True)
     info = {'program': prog}
     ev0 = {'ev': 'Build', 'name': bp['name'], 'decl': list(decl)}
+    pre = _phase_events(bp, decl, b)
     if b.error is not None and b.final_text is None:
         ev0.update(outcome='error', errtype=type(b.error).__name__, before_numbers=True)
         info['error'] = '%s: %s' % (type(b.error).__name__, str(b.error)[:200])
-        return [ev0], info
+        return pre + [ev0], info
     if b.error is not None:
         # equations were produced but the numerical solve raised: the model-level clauses are still decidable
         info['solve_error'] = '%s: %s' % (type(b.error).__name__, str(b.error)[:200])
     ev0.update(outcome='ok', errtype='', before_numbers=False)
-    events = [ev0]
+    events = pre + [ev0]
     decided = b.exact is not None
     if not decided:
         events.append({'ev': 'Undecided', 'why': (b.exact_error or 'unknown').split(':')[0]})
@@ -285,6 +286,49 @@ def observe(bp, decl, seed, horizon=HORIZON, with_ic=None):
     events.append(ev)
     info.update(sfc_detail=sfc_detail, closure=cl, meaning_bad=meaning_bad, rows_bad=rows_bad)
     return events, info
+
+
+def _phase_events(bp, decl, b):
+    """BuildStart + one Phase event per observed phase of main() (ledgers as [sector index, local name] pairs)"""
+    if not b.phases:
+        return []
+    secs = bp['sectors']
+    n = len(secs)
+    multi = len(bp['countries']) + (0 if bp['external'] == 'none' else 1) > 1
+    idx = {}
+    for i, d in enumerate(secs, 1):
+        idx[(d['cc'] + '_' + d['code']) if multi else d['code']] = i
+    for j, code in enumerate(('XR', 'FX', 'GOLD'), 1):
+        idx['EXT_' + code] = n + j
+    ref_idx = {d['cc'] + '.' + d['code']: i for i, d in enumerate(secs, 1)}
+    out = [{'ev': 'BuildStart', 'name': bp['name'], 'decl': list(decl)}]
+    for ph in b.phases:
+        if ph['kind'] == 'Generate' and ph.get('fullcode', '').startswith('EXT_'):
+            continue          # the three sectors of the ExternalSector have no _GenerateEquations of their own
+        led = []
+        ok = 'unobservable' not in ph
+        for rec in ph['ledgers']:
+            if rec['ref'] not in ref_idx:
+                continue
+            row = {'s': ref_idx[rec['ref']]}
+            for key in ('F', 'INC'):
+                agg = {}
+                for t in rec[key]:
+                    f = []
+                    for fc, loc in t['f']:
+                        if fc not in idx:
+                            ok = False
+                            continue
+                        f.append((idx[fc], loc))
+                    if not t['int']:
+                        ok = False
+                    k2 = tuple(sorted(set(f)))
+                    agg[k2] = agg.get(k2, 0) + t['c']      # the same variable may appear under its local and its full name
+                row[key] = [{'c': c, 'int': True, 'f': [list(x) for x in k2]} for k2, c in sorted(agg.items()) if c != 0]
+            led.append(row)
+        out.append({'ev': 'Phase', 'kind': ph['kind'], 'sector': idx.get(ph.get('fullcode', ''), 0),
+                    'observable': bool(ok), 'ledgers': led})
+    return out
 
 
 def _observe_job(args):
